@@ -220,6 +220,23 @@ theorem C04_complete_one_merge (H : Bytes → Bytes) (P0 : PStore) (t0 t1 t2 : N
   intro a b ha hb hk
   rw [hU a b (hin a ha) (hin b hb) hk]
 
+/-- non-vacuity of `C04_complete_one_merge`: the block trie does nothing itself, one transaction inserts a key -/
+example : Resolves id (Map.get (({} : PStore).applyAll (saveStream id ((Trie.open [] .empty 1).applyEvents id
+      ([] ++ mergeEvents (orderChanges id ((Trie.open [] .empty 1).applyEvents id (insertE 1 [65] .empty [] [3]).2).cc.getChanges)
+        ((Trie.open [] .empty 1).applyEvents id (insertE 1 [65] .empty [] [3]).2).cc.getDeletes)))).nodes)
+      (.leaf 1 [3] [65]) [] := by
+  have hC : RoundEvents 1 .empty ((insertE 1 [65] .empty [] [3]).2 ++ []) (.leaf 1 [3] [65]) := by
+    apply RoundEvents.ins _ _ _ _ _ (by simp)
+    have h1 : (insertE 1 [65] .empty [] [3]).1 = .leaf 1 [3] [65] := by simp [insertE]
+    rw [h1]; exact RoundEvents.nil _
+  have := C04_complete_one_merge id {} .empty .empty (.leaf 1 [3] [65]) (Trie.open [] .empty 1) (Trie.open [] .empty 1) 1
+    [] ((insertE 1 [65] .empty [] [3]).2 ++ []) ⟨rfl, rfl⟩ ⟨rfl, rfl⟩ (by intro r h; simp [refs] at h) (Or.inl rfl)
+    (RoundEvents.nil _) hC (by decide) (by
+      intro a b ha hb _
+      simp [refs, insertE, eventRefs] at ha hb
+      rw [ha, hb])
+  simpa using this
+
 /-- non-vacuity of `C04_complete`: a round that inserts a key and overwrites it, saved into an empty store -/
 example : ∃ t, RoundEvents 1 .empty ((insertE 1 [65] .empty [] [3]).2 ++ ((insertE 1 [66] (.leaf 1 [3] [65]) [] [3]).2 ++ [])) t ∧
     Resolves id (Map.get (({} : PStore).applyAll (saveStream id ((Trie.open [] .empty 1).applyEvents id
